@@ -12,6 +12,7 @@ package main
 // other comparison is unknown (⊤) and stops the run at the branch that needs it.
 
 import (
+	"crypto/sha1"
 	"fmt"
 	"go/constant"
 	"go/token"
@@ -169,8 +170,24 @@ func symAtom(name string, args ...poly) poly {
 	}
 	full := name + "(" + strings.Join(as, ", ") + ")"
 	symApps[full] = symApp{name, args}
+	if symWiden != nil && len(full) > symWidenLimit {
+		// widening: a very large application is replaced by a symbol named after its content (equal
+		// expressions keep equal names) whose value under the reference valuation is recorded
+		if v, ok := symEvalAtom(full, symWiden); ok {
+			h := sha1.Sum([]byte(full))
+			short := fmt.Sprintf("h%x", h[:8])
+			symWiden[short] = v
+			return polyVar(short)
+		}
+	}
 	return polyVar(full)
 }
+
+// symWiden, when set by a model, is the valuation used to abbreviate very large applications
+// (iterative solvers nest their previous iterate in every step).
+var symWiden map[string]float64
+
+const symWidenLimit = 160
 
 // symEval evaluates p at a valuation of its symbols (used only to choose a branch when a
 // comparison is not decided symbolically; the driver states the valuation in its evidence).
@@ -193,10 +210,28 @@ func symEval(p poly, val map[string]float64) (float64, bool) {
 	return total, true
 }
 
+// symEvalCache memoises the values of function atoms under the current valuation (nested
+// solver iterates would otherwise be re-evaluated exponentially often).  A model that changes
+// the value of a symbol calls symResetEval.
+var symEvalCache = map[string]float64{}
+
+func symResetEval() { symEvalCache = map[string]float64{} }
+
 func symEvalAtom(f string, val map[string]float64) (float64, bool) {
 	if v, ok := val[f]; ok {
 		return v, true
 	}
+	if v, ok := symEvalCache[f]; ok {
+		return v, true
+	}
+	v, ok := symEvalAtomRaw(f, val)
+	if ok && strings.Contains(f, "(") {
+		symEvalCache[f] = v
+	}
+	return v, ok
+}
+
+func symEvalAtomRaw(f string, val map[string]float64) (float64, bool) {
 	if _, ranks := val["__ranks"]; ranks && strings.HasPrefix(f, "r") && !strings.Contains(f, "(") {
 		// the abstract ranks double as coordinates on an integer grid
 		var r int64
@@ -555,12 +590,31 @@ func symRationalEqual(a, b poly) bool {
 			}
 			if idx >= 0 {
 				rest := append(append([]string{}, fs[:idx]...), fs[idx+1:]...)
-				next = next.add(poly{strings.Join(rest, "*"): new(big.Rat).Set(c)}, 1)
+				next.accumulate(poly{strings.Join(rest, "*"): c})
 			} else {
-				next = next.add(symMul(poly{k: new(big.Rat).Set(c)}, q), 1)
+				next.accumulate(symMul(poly{k: new(big.Rat).Set(c)}, q))
+			}
+			if len(next) > symMaxTerms*16 {
+				return false
+			}
+		}
+		for k, v := range next {
+			if v.Sign() == 0 {
+				delete(next, k)
 			}
 		}
 		d = next
 	}
 	return false
+}
+
+// accumulate adds q into p in place (zero terms are left for the caller to sweep).
+func (p poly) accumulate(q poly) {
+	for k, v := range q {
+		if o, ok := p[k]; ok {
+			o.Add(o, v)
+		} else {
+			p[k] = new(big.Rat).Set(v)
+		}
+	}
 }
